@@ -602,7 +602,10 @@ impl Database {
 
         // log what the undo dirtied, as an autocommit statement would (inside a transaction,
         // i.e. after ROLLBACK TO, this is a no-op: COMMIT logs those pages)
+        // (every table with tracked pages, not only the tables of `entries`: an earlier ROLLBACK TO
+        // of the same transaction may have undone its writes already)
         let mut table_ids: Vec<u32> = entries.iter().map(|e| e.table_id).collect();
+        table_ids.extend(self.shared.dirty_tracker.all_dirty_table_ids());
         table_ids.sort_unstable();
         table_ids.dedup();
         for table_id in table_ids {
